@@ -148,8 +148,8 @@ pub const LAZY_REGEXES: [(&str, &[&str]); 6] = [
     (".*{2}", &["", "ab"]),
     (".**o", &["o", "x"]),
 ];
-const INTS: [i64; 9] = [-1, 0, 1, 2, 3, 10, 255, 1000, -7];
-const FLOATS: [f64; 5] = [0.0, 1.5, -2.5, 3.0, 1e300];
+const INTS: [i64; 11] = [-1, 0, 1, 2, 3, 10, 255, 1000, -7, 64, 9007199254740993];
+const FLOATS: [f64; 9] = [0.0, 1.5, -2.5, 3.0, 1e300, -0.0, 1.0, 9007199254740993.0, 9.223372036854775807e18];
 pub const IDENT_NAMES: [&str; 10] = [
     "A", "B", "C", "D", "sel", "android", "order", "nothing", "allow", "offline",
 ];
@@ -166,8 +166,8 @@ fn gen_word(rng: &mut Rng, k: &Knobs) -> String {
     }
 }
 
-const RE_PREFIX: [&str; 10] = ["", "", "", ".*", ".+", ".?", "^", "^.*", ".*.*", "(?i)"];
-const RE_SUFFIX: [&str; 12] = ["", "", "", ".*", ".+", ".?", "$", ".*$", ".{0,2}", "+", ".*.*", "?"];
+const RE_PREFIX: [&str; 14] = ["", "", "", ".*", ".+", ".?", "^", "^.*", ".*.*", "(?i)", "(?s).*", "(?m)^", "\\.", ".*\\."];
+const RE_SUFFIX: [&str; 15] = ["", "", "", ".*", ".+", ".?", "$", ".*$", ".{0,2}", "+", ".*.*", "?", "\\..*", "\\\\.*", "(?s:.*)"];
 const RE_CORE: [&str; 10] = ["foo", "bar", "o", "fo", "ba[rz]", "(foo|bar)", "[a-c]", "\\d", "x", "b.r"];
 
 /// A regex composed from a prefix, a core and a suffix; the interesting part for the optimiser is
@@ -289,7 +289,7 @@ fn gen_list(rng: &mut Rng, k: &Knobs, m: KeyMod, depth: usize, field: &str) -> Y
     let mut n = 1 + rng.below(k.max_list);
     let mut homogeneous = rng.chance(1, 2);
     if k.has(F_BIG_LISTS) && rng.chance(1, 3) {
-        n = *rng.pick(&[64usize, 65, 70, 256, 260]);
+        n = *rng.pick(&[63usize, 64, 65, 70, 255, 256, 257]);
         homogeneous = true;
     }
     let mut out = vec![];
@@ -330,7 +330,12 @@ fn gen_list(rng: &mut Rng, k: &Knobs, m: KeyMod, depth: usize, field: &str) -> Y
     Yaml::Sequence(out)
 }
 
+const ODD_FIELDS: [&str; 8] = ["Key", "KEY", "a b", "a  b", "arr[01]", "a#b", "x_y", "A"];
+
 fn gen_field(rng: &mut Rng, k: &Knobs, prefer: Option<&str>) -> String {
+    if k.has(F_QUOTING) && rng.chance(1, 6) {
+        return (*rng.pick(&ODD_FIELDS)).to_owned();
+    }
     if let Some(p) = prefer {
         if k.has(F_SAME_FIELD) && rng.chance(1, 2) {
             return p.to_owned();
@@ -481,7 +486,7 @@ fn gen_cond(rng: &mut Rng, k: &Knobs, idents: &[String], depth: usize) -> String
                 if rng.chance(1, 2) {
                     format!("all({})", id)
                 } else {
-                    format!("of({}, {})", id, rng.below(4))
+                    format!("of({}, {})", id, if rng.chance(1, 12) { *rng.pick(&[5usize, 64, 65, 4294967296]) } else { rng.below(4) })
                 }
             }
             2 => {
@@ -563,7 +568,33 @@ fn family_pattern(rng: &mut Rng, kind: usize, icase: bool) -> String {
 fn gen_structured(rng: &mut Rng, k: &Knobs) -> Yaml {
     let mut det = Mapping::new();
     let cond;
-    if rng.chance(1, 3) {
+    if rng.chance(1, 40) {
+        // T5: sizes at the thresholds the optimiser and solver use (matrix: a field counted up to
+        // 255 times, more than 31 columns; automata with 63/64/65 needles)
+        let mut entries = vec![];
+        if rng.chance(1, 2) {
+            let n = *rng.pick(&[254usize, 255, 256, 257]);
+            for i in 0..n {
+                let mut m = Mapping::new();
+                m.insert(ystr("a"), ystr(&format!("v{}*", i)));
+                if i % 2 == 0 {
+                    m.insert(ystr("b"), ystr("foo"));
+                }
+                entries.push(Yaml::Mapping(m));
+            }
+        } else {
+            let cols = *rng.pick(&[31usize, 32, 33, 40]);
+            for r in 0..2 {
+                let mut m = Mapping::new();
+                for c in 0..cols {
+                    m.insert(ystr(&format!("f{}", c)), ystr(if (c + r) % 3 == 0 { "foo" } else { "*o*" }));
+                }
+                entries.push(Yaml::Mapping(m));
+            }
+        }
+        det.insert(ystr("A"), Yaml::Sequence(entries));
+        cond = (*rng.pick(&["A", "not A", "all(A)", "of(A, 2)", "of(A, 0)"])).to_owned();
+    } else if rng.chance(1, 3) {
         // T3: one pattern text under both case flags, on several fields, or-ed
         let n = 2 + rng.below(2);
         let kind = if rng.chance(2, 3) { 4 } else { rng.below(4) };
@@ -1078,7 +1109,13 @@ pub fn random_scalar(rng: &mut Rng, k: &Knobs) -> MVal {
         2 => MVal::Int(*rng.pick(&INTS)),
         3 => MVal::UInt(rng.below(4) as u64),
         4 => MVal::float(*rng.pick(&FLOATS)),
-        5 => MVal::Str((*rng.pick(&WORDS)).to_owned()),
+        5 => {
+            if rng.chance(1, 4) {
+                MVal::Str((*rng.pick(&["a", "b", "n.a", "$a", "${a}", "a.b", "+5", "1e3", "0x10", " 1", "-0", "9223372036854775808", "fo", "ba"])).to_owned())
+            } else {
+                MVal::Str((*rng.pick(&WORDS)).to_owned())
+            }
+        }
         6 => MVal::Str(String::new()),
         7 => {
             if rng.chance(1, 3) {
@@ -1164,8 +1201,16 @@ fn gen_obj(rng: &mut Rng, node: &Schema, k: &Knobs, depth: usize) -> Vec<(String
             if r < 75 {
                 gen_leaf(rng, child, k)
             } else if r < 92 && k.has(F_DOC_ARRAYS) {
-                let n = rng.below(4);
-                MVal::Arr((0..n).map(|_| gen_leaf(rng, child, k)).collect())
+                let n = if rng.chance(1, 60) { 300 } else { rng.below(4) };
+                MVal::Arr(
+                    (0..n)
+                        .map(|_| match rng.below(12) {
+                            0 => MVal::Null,
+                            1 => MVal::Arr(vec![gen_leaf(rng, child, k)]),
+                            _ => gen_leaf(rng, child, k),
+                        })
+                        .collect(),
+                )
             } else if r < 96 {
                 MVal::Obj(vec![])
             } else {
